@@ -131,6 +131,145 @@ def typestate_read_message(ck, fi, is_client=False):
     return n_states
 
 
+def _reaches(cfg, start_ids, targets):
+    seen = set(start_ids)
+    st = list(start_ids)
+    while st:
+        x = st.pop()
+        if x in targets:
+            return True
+        for y, _k in cfg.succ[x]:
+            if y not in seen:
+                seen.add(y)
+                st.append(y)
+    return False
+
+
+def _truthy_equiv(e, names):
+    """``e`` has the truth value of one of ``names`` (x, bool(x), not not x)."""
+    while True:
+        if isinstance(e, ast.Call) and q.call_attr(e) == "bool" and len(e.args) == 1:
+            e = e.args[0]
+        elif isinstance(e, ast.UnaryOp) and isinstance(e.op, ast.Not) and isinstance(e.operand, ast.UnaryOp) and isinstance(e.operand.op, ast.Not):
+            e = e.operand.operand
+        else:
+            break
+    return isinstance(e, ast.Name) and e.id in names
+
+
+def _loop_exits(ck, loop):
+    R = "C05.loop-exits-on-error"
+    lcfg = loop.cfg
+    reads = [n for n, c in lcfg.find(lambda x: q.is_call(x, ".read_response"))]
+    if reads:
+        _exits_in(ck, loop, lcfg, reads, mode="loop")
+        return
+    # per-request helper
+    cls = loop.qualname.rsplit(".", 1)[0]
+    helpers = []
+    for n, c in lcfg.find(lambda x: isinstance(x, ast.Call) and isinstance(x.func, ast.Attribute) and q.dotted(x.func.value) == "self"):
+        qn = cls + "." + c.func.attr
+        if ck.repo.has_func(loop.file, qn):
+            h = ck.func(loop.file, qn)
+            if any(q.is_call(x, ".read_response") for x in q.walk_body(h.node)):
+                helpers.append((n, c, h))
+    if not helpers:
+        raise AnalysisError("serving loop: no read_response call in the loop or in a same-class helper it calls (unknown idiom)")
+    for n, c, h in helpers:
+        hreads = [m for m, _c in h.cfg.find(lambda x: q.is_call(x, ".read_response"))]
+        _exits_in(ck, h, h.cfg, hreads, mode="helper")
+        # the loop must stop when the helper reports false: the call sits in (or feeds) a test whose false edge
+        # cannot lead back to the call
+        names = set()
+        if n.kind == "stmt" and isinstance(n.ast, (ast.Assign, ast.AnnAssign)):
+            names = {p_ for p_ in q.assigned_paths(n.ast) if p_.isidentifier()}
+        tests = [t for t in lcfg.stmt_nodes(lambda t: t.kind == "test" and (t is n or q.dotted(t.ast) in names))]
+        if not tests:
+            ck.ob(R, loop, c, False, "the result of the per-request helper is tested by the serving loop", construct="helper result ignored")
+            continue
+        for t in tests:
+            false_succ = [sid for sid, k in lcfg.succ[t.id] if k == "false"]
+            ck.ob(R, loop, t.ast, not _reaches(lcfg, false_succ, {n.id}), "a false result of the per-request helper ends the serving loop", construct="false result of per-request helper")
+
+
+def _exits_in(ck, fi, cfg, reads, mode):
+    """mode 'loop': error handlers / a false result must not lead back to read_response.
+    mode 'helper': on those paths the helper returns a false value (or raises)."""
+    R = "C05.loop-exits-on-error"
+    ck.floor(R, len(reads), 1, "read_response call sites")
+    read_ids = {n.id for n in reads}
+    facts = must_facts(cfg)
+    res_names = set()
+    for n in reads:
+        if n.kind == "stmt" and isinstance(n.ast, (ast.Assign, ast.AnnAssign)):
+            res_names |= {p_ for p_ in q.assigned_paths(n.ast) if p_.isidentifier()}
+
+    def returns_from(start_ids):
+        seen = set(start_ids)
+        st = list(start_ids)
+        out = []
+        while st:
+            x = st.pop()
+            nd = cfg.nodes[x]
+            if nd.kind == "stmt" and isinstance(nd.ast, ast.Return):
+                out.append(nd)
+                continue
+            for y, k in cfg.succ[x]:
+                if y not in seen and k != "exc":
+                    seen.add(y)
+                    st.append(y)
+        return out
+
+    def false_return(nd):
+        v = nd.ast.value
+        if v is None or (isinstance(v, ast.Constant) and not v.value):
+            return True
+        if _truthy_equiv(v, res_names):
+            return any(t in res_names and pol is False for t, pol in facts[nd.id]) or None  # None: depends on the result
+        return False
+
+    nh = 0
+    for t in [x for x in q.walk_body(fi.node) if isinstance(x, ast.Try)]:
+        if not any(q.is_call(c, ".read_response") for st in t.body for c in q.calls(st)):
+            continue
+        for h in t.handlers:
+            hn = [n for n in cfg.nodes if n.kind == "handler" and n.ast is h]
+            if not hn:
+                continue
+            nh += 1
+            if mode == "loop":
+                ok = not _reaches(cfg, [hn[0].id], read_ids)
+                what = "an error while reading a request ends the serving loop (no path from the handler back to read_response)"
+            else:
+                rets = returns_from([hn[0].id])
+                ok = all(false_return(r) is True for r in rets) and not _reaches(cfg, [hn[0].id], read_ids)
+                what = "an error while reading a request makes the per-request helper return a false value (or raise)"
+            ck.ob(R, fi, h, ok, what, construct="except %s" % ",".join(q.handler_names(h)))
+    ck.floor(R, nh, 2, "handlers around read_response")
+    tests = [n for n in cfg.stmt_nodes(lambda n: n.kind == "test" and q.dotted(n.ast) in res_names)]
+    if mode == "loop":
+        if not tests:
+            for n in reads:
+                nxt = [sid for sid, k in cfg.succ[n.id] if k != "exc"]
+                if _reaches(cfg, [y for x in nxt for y, _k in cfg.succ[x]] + [x for x in nxt if x not in read_ids], read_ids):
+                    ck.ob(R, fi, n.ast, False, "the result of read_response is never tested although the loop goes on to the next request", construct="result of read_response ignored")
+            if not res_names:
+                raise AnalysisError("serving loop: cannot find the test of read_response's result (unknown idiom)")
+        for tn in tests:
+            false_succ = [sid for sid, k in cfg.succ[tn.id] if k == "false"]
+            ck.ob(R, fi, tn.ast, not _reaches(cfg, false_succ, read_ids), "a false result of read_response (connection closed or to be closed) ends the serving loop", construct="false result of read_response")
+    else:
+        # helper: every normal return after the read is false when the result is false
+        if not res_names:
+            raise AnalysisError("per-request helper: result of read_response is not bound to a name (unknown idiom)")
+        for n in reads:
+            for r in returns_from([sid for sid, k in cfg.succ[n.id] if k != "exc"]):
+                fr = false_return(r)
+                known_true = any(t in res_names and pol is True for t, pol in facts[r.id])
+                ok = fr is True or fr is None or known_true
+                ck.ob(R, fi, r.ast, ok, "the per-request helper returns a true value only when read_response returned a true value", construct="return after read_response")
+
+
 def _ends_wait(ck, fi, depth):
     """Number of guarded settles of self._finish_future in ``fi`` or in the same-class methods it calls
     (two levels): every settle found must be guarded (checked as obligations)."""
@@ -249,57 +388,9 @@ def run(ck):
 
     # the serving loop ends when the connection is gone: neither an error while reading a request nor a
     # false result may lead back to another read_response (decided by reachability on the CFG, so
-    # `return`, `break` and flag variables are all fine)
-    lcfg = loop.cfg
-    reads = [n for n, c in lcfg.find(lambda x: q.is_call(x, ".read_response"))]
-    ck.floor("C05.loop-exits-on-error", len(reads), 1, "read_response call sites in the serving loop")
-    read_ids = {n.id for n in reads}
-
-    def reaches_read(start_ids):
-        seen = set(start_ids)
-        st = list(start_ids)
-        while st:
-            x = st.pop()
-            if x in read_ids:
-                return True
-            for y, _k in lcfg.succ[x]:
-                if y not in seen:
-                    seen.add(y)
-                    st.append(y)
-        return False
-
-    nh = 0
-    for t in [x for x in q.walk_body(loop.node) if isinstance(x, ast.Try)]:
-        if not any(q.is_call(c, ".read_response") for st in t.body for c in q.calls(st)):
-            continue
-        for h in t.handlers:
-            hn = [n for n in lcfg.nodes if n.kind == "handler" and n.ast is h]
-            if not hn:
-                continue
-            nh += 1
-            ck.ob("C05.loop-exits-on-error", loop, h, not reaches_read([hn[0].id]),
-                  "an error while reading a request ends the serving loop (no path from the handler back to read_response)", construct="except %s" % ",".join(q.handler_names(h)))
-    ck.floor("C05.loop-exits-on-error", nh, 2, "handlers around read_response")
-    # the name bound to the result of read_response
-    res_names = set()
-    for n in reads:
-        if n.kind == "stmt" and isinstance(n.ast, (ast.Assign, ast.AnnAssign)):
-            res_names |= {p_ for p_ in q.assigned_paths(n.ast) if p_.isidentifier()}
-    tests = [n for n in lcfg.stmt_nodes(lambda n: n.kind == "test" and q.dotted(n.ast) in res_names)]
-    if not tests:
-        # the result is never branched on: the loop cannot stop on a false result if a normal path leads
-        # from the read back to the next read
-        for n in reads:
-            nxt = [sid for sid, k in lcfg.succ[n.id] if k != "exc"]
-            if any(x.suspends or True for x in [n]) and reaches_read([y for x in nxt for y, k2 in lcfg.succ[x]] + [x for x in nxt if x not in read_ids]):
-                ck.ob("C05.loop-exits-on-error", loop, n.ast, False, "the result of read_response is never tested although the loop goes on to the next request", construct="result of read_response ignored")
-                return_early = True
-        if not res_names:
-            raise AnalysisError("serving loop: cannot find the test of read_response's result (unknown idiom)")
-    for tn in tests:
-        false_succ = [sid for sid, k in lcfg.succ[tn.id] if k == "false"]
-        ck.ob("C05.loop-exits-on-error", loop, tn.ast, not reaches_read(false_succ),
-              "a false result of read_response (connection closed or to be closed) ends the serving loop", construct="false result of read_response")
+    # `return`, `break` and flag variables are all fine).  If the per-request part was extracted into a
+    # same-class helper, the helper must return a false value on those paths and the loop must stop on it.
+    _loop_exits(ck, loop)
 
     # adapters
     nf = 0
